@@ -415,13 +415,13 @@ func init() {
 		dictCase("fixed-ros-1arg", append(totalCffdictInt(7, 0), 12, 30), 0)
 		dictCase("fixed-empty", nil, 0)
 		dictCase("fixed-op-only", []byte{0}, 0)
-		dictCase("fixed-real-sid", []byte{30, 0x5f, 0}, 0)            // real 5 as SID
-		dictCase("fixed-real-sid", []byte{30, 0x5a, 0x5f, 0}, 0)      // real 5.5 as SID
-		dictCase("fixed-real-sid", []byte{30, 0x5b, 0x12, 0xff, 0}, 0) // 5e12 as SID
-		dictCase("fixed-real-sid", []byte{30, 0xe5, 0xff, 0}, 0)      // -5 as SID
+		dictCase("fixed-real-sid", []byte{30, 0x5f, 0}, 0)                               // real 5 as SID
+		dictCase("fixed-real-sid", []byte{30, 0x5a, 0x5f, 0}, 0)                         // real 5.5 as SID
+		dictCase("fixed-real-sid", []byte{30, 0x5b, 0x12, 0xff, 0}, 0)                   // 5e12 as SID
+		dictCase("fixed-real-sid", []byte{30, 0xe5, 0xff, 0}, 0)                         // -5 as SID
 		dictCase("fixed-real-sid", []byte{30, 0x21, 0x47, 0x48, 0x36, 0x48, 0xff, 0}, 0) // 2147483648 as SID
-		dictCase("fixed-real-sid", []byte{30, 0x39, 0x2f, 0}, 1)      // 392 with 1 custom: out of range
-		dictCase("fixed-real-sid", []byte{30, 0x39, 0x1f, 0}, 1)      // 391 with 1 custom: in range
+		dictCase("fixed-real-sid", []byte{30, 0x39, 0x2f, 0}, 1)                         // 392 with 1 custom: out of range
+		dictCase("fixed-real-sid", []byte{30, 0x39, 0x1f, 0}, 1)                         // 391 with 1 custom: in range
 		// every operator once, with one operand
 		for op := 0; op <= 21; op++ {
 			if op != 12 {
